@@ -699,8 +699,12 @@ def drive_chunks(ctx, lines, parts=6):
     """ctx.drive on interleaved slices, side by side (the driver is a one-line-in, one-line-out filter)"""
     import concurrent.futures
     chunks = [lines[k::parts] for k in range(parts)]
-    with concurrent.futures.ThreadPoolExecutor(max_workers=parts) as ex:
-        outs = list(ex.map(lambda ch: ctx.drive(DRIVER, ch, "sdo") if ch else [], chunks))
+    ctx.lean.locked()        # no rebuild of the imported modules by a concurrent check while the driver runs
+    try:
+        with concurrent.futures.ThreadPoolExecutor(max_workers=parts) as ex:
+            outs = list(ex.map(lambda ch: ctx.drive(DRIVER, ch, "sdo") if ch else [], chunks))
+    finally:
+        ctx.lean.unlock()
     if any(o is None for o in outs):
         return None
     res = [None] * len(lines)
